@@ -33,14 +33,23 @@ func (e *Enc) smtFor(o *Oblig, withModel bool, values []string) string {
 		b.WriteString("(set-option :produce-models true)\n")
 	}
 	b.WriteString("(set-logic ALL)\n")
-	for _, l := range e.d.lines {
-		b.WriteString(l + "\n")
-	}
 	body := e.body
 	if o.Prefix < len(body) {
 		body = body[:o.Prefix]
 	}
 	text := strings.Join(body, "\n")
+	// the element-object axiom (byref slices) is only needed when elemptr occurs:
+	// an unused quantifier keeps the solvers from answering sat (no counterexample)
+	needElem := strings.Contains(text, "elemptr") || strings.Contains(o.Formula, "elemptr") || strings.Contains(strings.Join(o.Extra, " "), "elemptr") || strings.Contains(strings.Join(e.recAxioms, " "), "elemptr")
+	for _, l := range e.d.lines {
+		if !needElem && strings.HasPrefix(l, "(assert (forall ((r Int) (i Int)) (! (and (< (elemptr r i) 0)") {
+			continue
+		}
+		if !needElem && strings.Contains(l, "elemptr") && strings.HasPrefix(l, "(assert") {
+			continue
+		}
+		b.WriteString(l + "\n")
+	}
 	needBits := bitSyms.MatchString(text) || bitSyms.MatchString(o.Formula) || bitSyms.MatchString(strings.Join(e.recAxioms, "\n"))
 	if needBits {
 		for _, a := range bitAxioms {
